@@ -97,6 +97,9 @@ void ezc3d::c3d::readFile(unsigned int nByteToRead, char * c, int nByteFromPrevi
     if (pos != 1)
         this->seekg (nByteFromPrevious, pos); // Move to number analogs
     this->read (c, nByteToRead);
+    // Bytes that could not be read (end of file) are zeros, not whatever the buffer contained
+    for (size_t i = static_cast<size_t>(this->gcount() > 0 ? this->gcount() : 0); i < nByteToRead; ++i)
+        c[i] = '\0';
     c[nByteToRead] = '\0'; // Make sure last char is NULL
 }
 
